@@ -247,6 +247,12 @@ func (e *Engine) stub6(fn *ssa.Function, args []any) (any, bool) {
 		}
 		return copyVal(c.state), true
 	case "(*crypto/tls.Conn).Close":
+		// a peer that reset the connection once the handshake was over: the close_notify write fails and Close
+		// reports the harness-declared ResetErr (shaped like *net.OpError)
+		c := (*args[0].(Ptr).cells)[0].(*TLSConnV)
+		if advSt := structOf(c.advT); advSt != nil && hasField(advSt, "Reset") && e.branch(c.adv[fieldIdx(advSt, "Reset")]) {
+			return c.adv[fieldIdx(advSt, "ResetErr")], true
+		}
 		return IfaceV{}, true
 	}
 	return nil, false
@@ -316,6 +322,8 @@ func (e *Engine) serverHandshake(c *TLSConnV) any {
 				return fail("no certificates configured")
 			}
 		}
+	} else if certs, _ := getF(cfg, tConfig, "Certificates").(SliceV); certs.len == 0 {
+		return fail("no certificates configured")
 	}
 	// a peer that aborts once it has seen the server's flight (fatal alert / reset): the error the server's
 	// handshake returns is the harness-declared AbortErr (shaped like *net.OpError: Temporary() == false)
